@@ -14,6 +14,13 @@
 //	badreg    tables k <= 1 with every rejected registration (duplicate, unsupported method,
 //	          pattern not starting with '/') at every position; tables k = 2 with duplicates at
 //	          every later position and one bad method / bad pattern at the end; requests x P1.
+//	hooks     configuration dimension: a custom NotFound and/or NotAllowed handler installed before
+//	          the first / after the last registration (thorough: at every position); tables
+//	          k <= 2 (thorough: k = 3 with the handlers installed first); requests x P1, and for
+//	          k <= 1 also x EXT and every un-clean spelling of the route.
+//	tree      core/search.Tree driven directly (no path.Clean in front of it): clean patterns and
+//	          their slash-only spellings, every ordered table k <= 2, relative patterns; Search of
+//	          every clean path (see tree.go).
 //	tables4   (thorough) every ordered 4-route table in canonical labelling, under the soft time
 //	          box; requests x P1.
 //
@@ -352,6 +359,103 @@ func unitsBadReg(sh share) []unit {
 	})...)
 }
 
+// ---- configuration dimension "hooks": custom NotFound / NotAllowed handlers ----
+
+// hookConfigs lists the (nf, na) installation positions for a table of k routes; a position is
+// the number of Handle calls made before the Set call (0 = before every registration, k = after
+// all), -1 = handler not installed. The default configuration (-1, -1) is never included (it is
+// what every other family runs). quick: each handler absent / installed first / installed last;
+// full: every position 0..k for each handler.
+func hookConfigs(k int, full bool) [][2]int {
+	pos := []int{-1, 0}
+	if full {
+		for i := 1; i <= k; i++ {
+			pos = append(pos, i)
+		}
+	} else if k > 0 {
+		pos = append(pos, k)
+	}
+	var out [][2]int
+	for _, nf := range pos {
+		for _, na := range pos {
+			if nf >= 0 || na >= 0 {
+				out = append(out, [2]int{nf, na})
+			}
+		}
+	}
+	return out
+}
+
+func inQuickHookConfigs(k int, c [2]int) bool {
+	ok := func(p int) bool { return p == -1 || p == 0 || p == k }
+	return ok(c[0]) && ok(c[1])
+}
+
+func (w *worker) withHooks(c [2]int, f func()) {
+	w.nf, w.na = c[0], c[1]
+	f()
+	w.nf, w.na = -1, -1
+}
+
+// unitsHooks: tables k <= 2 (share sh decides the labellings of the 2-route tables) x hook
+// configurations x P1; rest=false (quick share): first/last positions, plus - for k <= 1 - the EXT
+// request spellings and every un-clean spelling of the route with the handlers installed first.
+// rest=true (thorough remainder): the other labellings with every position, and the middle
+// positions on the quick share's tables.
+func unitsHooks(sh share) []unit {
+	body := func(w *worker, regs []regSpec) {
+		k := len(regs)
+		canonQuick := k <= sh.kFull || canon(regs)
+		if !sh.rest && !canonQuick {
+			return // other labellings: thorough remainder
+		}
+		for _, c := range hookConfigs(k, sh.rest) {
+			if sh.rest && canonQuick && inQuickHookConfigs(k, c) {
+				continue // done by the quick share
+			}
+			w.withHooks(c, func() {
+				w.crossCheck = k <= 1 && !sh.rest
+				w.runTable(regs, setP1, true)
+				w.crossCheck = false
+			})
+		}
+		if sh.rest || k > 1 {
+			return
+		}
+		var tmp [1]regSpec
+		for _, c := range [][2]int{{0, -1}, {-1, 0}, {0, 0}} {
+			w.withHooks(c, func() {
+				w.runTable(regs, setExt, false)
+				if k == 1 {
+					for _, sp := range spellingsOf[regs[0].p] {
+						tmp[0] = regSpec{regs[0].m, sp}
+						w.runTable(tmp[:], setP1, false)
+					}
+				}
+			})
+		}
+	}
+	var us []unit
+	if !sh.rest {
+		us = append(us, unit{"hooks", func(w *worker) { body(w, nil) }})
+	}
+	all := share{kFull: 2} // visit every table; body sorts out which configurations belong to this share
+	return append(us, tableUnits("hooks", 2, all, body)...)
+}
+
+// unitsHooks3 (thorough): 3-route tables in canonical labelling with the handlers installed
+// before the registrations.
+func unitsHooks3() []unit {
+	return tableUnits("hooks-k3", 3, share{kFull: 2}, func(w *worker, regs []regSpec) {
+		if len(regs) != 3 {
+			return
+		}
+		for _, c := range [][2]int{{0, -1}, {-1, 0}, {0, 0}} {
+			w.withHooks(c, func() { w.runTable(regs, setP1, false) })
+		}
+	})
+}
+
 // unitsTables4: every ordered 4-route table in canonical method/literal labelling, one unit per
 // canonical 3-route prefix (thorough; time-boxed).
 func unitsTables4() []unit {
@@ -415,6 +519,7 @@ func main() {
 	}
 	buildUniverse()
 	buildPairs()
+	buildTreeFamily()
 	r := vlib.NewReport(cfg)
 
 	if cfg.Replay != "" {
@@ -430,11 +535,21 @@ func main() {
 			reqSet = []int{pid}
 		}
 		w.onlyMethod = mi
-		w.runTable(regs, reqSet, false)
-		fmt.Printf("replay class=%s table=%s", class, tableString(regs))
-		if pid >= 0 {
-			fmt.Printf(" request=%s %s", allMethods[mi], paths[pid].raw)
+		if rc.NotFoundAfter != nil {
+			w.nf = *rc.NotFoundAfter
 		}
+		if rc.NotAllowedAfter != nil {
+			w.na = *rc.NotAllowedAfter
+		}
+		if rc.Tree {
+			if pid >= 0 {
+				treePaths = []int{pid}
+			}
+			w.runTree(regs)
+		} else {
+			w.runTable(regs, reqSet, false)
+		}
+		fmt.Printf("replay class=%s %s", class, caseString(regs, w.nf, w.na, rc.Tree, mi, pid))
 		fmt.Printf("\nrecorded: expected %s; observed %s\n", rc.Expected, rc.Observed)
 		if len(w.viol) == 0 {
 			fmt.Println("now: the case passes (reference and router agree)")
@@ -476,6 +591,8 @@ func main() {
 		{"ext", unitsExt(qSmall, false)},
 		{"unclean", unitsUnclean(qSmall)},
 		{"badreg", unitsBadReg(qSmall)},
+		{"hooks", unitsHooks(qSmall)},
+		{"tree", unitsTree()},
 	}
 	if cfg.Thorough() {
 		qMain.rest, qSmall.rest = true, true
@@ -484,6 +601,8 @@ func main() {
 			phase{"unclean (other method/literal labellings of 2-route tables)", unitsUnclean(qSmall)},
 			phase{"badreg (other method/literal labellings of 2-route tables)", unitsBadReg(qSmall)},
 			phase{"ext (other method/literal labellings of 2-route tables)", unitsExt(qSmall, false)},
+			phase{"hooks (other labellings of 2-route tables, every installation position)", unitsHooks(qSmall)},
+			phase{"hooks-k3 (3-route tables, canonical labelling, handlers installed first)", unitsHooks3()},
 		)
 	}
 	complete := true
@@ -540,6 +659,10 @@ func main() {
 		"registrations_rejected_unsupported_method": tot.RegBadMethod, "registrations_rejected_relative_pattern": tot.RegBadPath,
 		"respelled_duplicate_rejected": tot.SpelledDupRejected, "respelled_duplicate_accepted_table_skipped": tot.SpelledDupAccepted,
 		"oracle_failures_total": tot.Failures, "requests_cross_checked_with_httptest_recorder": tot.CrossChecked,
+		"tables_with_custom_notfound_or_notallowed_handler": tot.HookTables,
+		"requests_that_must_reach_custom_notfound_handler":  tot.HookNF, "requests_that_must_reach_custom_notallowed_handler": tot.HookNA,
+		"direct_tree_tables": tot.TreeTables, "direct_tree_searches": tot.TreeSearches,
+		"direct_tree_empty_segment_route_rejected": tot.TreeDupSlashRejected, "direct_tree_empty_segment_route_accepted_as_clean": tot.TreeEmptySegAccepted,
 	}
 	for k, v := range cnt {
 		r.Count(k, int(v))
@@ -557,21 +680,22 @@ func main() {
 		"method_pattern_pairs": len(pairs), "unclean_pattern_spellings": nUnclean,
 		"relative_patterns": nRelative, "unsupported_methods": len(allMethods) - firstBadMeth,
 		"request_paths_P1": len(setP1), "request_paths_EXT": len(setExt),
+		"direct_tree_routes": len(treeRoutes), "direct_tree_search_paths": len(treePaths),
 	})
 	r.SetRule("bounded-exhaustive: every ordered route table (insertion order = enumeration order) of the families in main.go is built on a fresh router.NewRouter() and " +
-		"every request method x path of its request set is served through ServeHTTP; each (table, request) pair is generated exactly once. " +
-		"evaluations = requests served and compared with the reference matcher. distinct_nontrivial = (table, request) pairs in which at least one registered route " +
+		"every request method x path of its request set is served through ServeHTTP; each (table, configuration, request) triple is generated exactly once. " +
+		"Configuration = default router, or (family hooks) a custom NotFound and/or NotAllowed handler installed before/after the registrations; family tree drives " +
+		"core/search.Tree directly (Add of clean and slash-only spellings, Search of clean paths). " +
+		"evaluations = requests served (or direct tree searches) compared with the reference matcher. distinct_nontrivial = (table, request) pairs in which at least one registered route " +
 		"is involved in the verdict: a handler must be dispatched, a 405 with an Allow set must be produced, or a 404 must be produced although a route of the " +
 		"request's method matches the first segment (search descends and must fail); 404s on tables where nothing matches even the first segment are not counted.")
 	r.Assume("route tables use one variable name per position (:v<depth>), as the statement's precondition requires; this is asserted when the pattern family is built")
+	r.Assume("custom NotAllowed handler installed: the statement's '405 + Allow' describes the default answer; with the custom handler only 'that handler is reached exactly once, no route handler, not the NotFound handler' is demanded (the pinned router sets neither status nor Allow then); likewise for the custom NotFound handler")
+	r.Assume("direct search.Tree family: a route with empty segments (//a, /a//b, /a/) may be rejected (then it must leave no trace) or accepted (then it must behave exactly as its clean spelling); the statement only fixes the router level, where such spellings are cleaned before they reach the tree")
 	r.Assume("two registrations under one method whose patterns differ in spelling but clean to the same pattern: the statement is silent; rejection is accepted, acceptance makes the table skipped (counted)")
 	for _, k := range sortedClasses(viol) {
 		v := viol[k]
-		desc := "table " + tableString(v.regs)
-		if v.mi >= 0 {
-			desc += " request " + allMethods[v.mi] + " " + paths[v.pid].raw
-		}
-		desc += ": expected " + v.exp + "; observed " + v.got
+		desc := caseString(v.regs, v.nf, v.na, v.tree, v.mi, v.pid) + ": expected " + v.exp + "; observed " + v.got
 		r.Violation(v.class, desc, v.replay())
 	}
 	r.Finish()
